@@ -58,6 +58,46 @@ def in_finding_class(o):
     return any(any(c in n for c in "\\,;") for n in names_of(o))
 
 
+def first_parse_names(text, comps):
+    """{name: (lines in the text, values in the tree)} where they differ; None when they agree or the text is not balanced"""
+    import collections
+    from . import c09 as C09
+    names, depth, nb, ne = collections.Counter(), 0, 0, 0
+    for l in C09.logical_lines(text):
+        if not l.strip():
+            continue
+        n = l.split(":")[0].split(";")[0].strip().upper()
+        if n == "BEGIN":
+            depth += 1
+            nb += 1
+        elif n == "END":
+            depth -= 1
+            ne += 1
+        elif depth > 0:
+            names[n] += 1
+    got, ncomp, unnamed = collections.Counter(), 0, 0
+    for root in comps:
+        for c in root.walk():
+            ncomp += 1
+            for k in c.keys():
+                got[k] += len(c[k]) if isinstance(c[k], list) else 1
+            for e in getattr(c, "errors", None) or []:
+                if e[0]:
+                    got[str(e[0]).upper()] += 1
+                else:
+                    unnamed += 1          # the line could not even be split: its name is not recorded
+    if not (nb == ne == ncomp):
+        return None
+    names.pop("FREEBUSY", None)
+    got.pop("FREEBUSY", None)
+    diff = {k: (names[k], got[k]) for k in set(names) | set(got) if names[k] != got[k]}
+    missing = sum(a - b for a, b in diff.values() if a > b)
+    extra = sum(b - a for a, b in diff.values() if b > a)
+    if extra == 0 and missing == unnamed:
+        return None
+    return diff or None
+
+
 def gen_cases(ctx):
     rng = common.rng_for(ctx.seed, "c01")
     cases = []
@@ -110,6 +150,15 @@ def run(ctx, res):
         reqs.append(T.parse_req(x, False, log1s))
         row["o1s"] = o1s
         row["nreq"] += 1
+        if comps1 is not None and kind in ("fixture", "generated"):
+            # first-parse clause, direct oracle: the property lines of a well-formed text (inside a component, not BEGIN/END)
+            # and the property values of the tree (plus the errors recorded by lenient components) carry the same names the
+            # same number of times -- nothing dropped, nothing invented.  FREEBUSY is left out (one line, several values).
+            problem = first_parse_names(text, comps1)
+            res.evaluations += 1
+            if problem:
+                res.fail("C01 first parse: the property names of the tree are not those of the text's content lines",
+                         text[:1500], observed=problem)
         if comps1 is not None:
             sers = [T.impl_ser(c) for c in comps1]
             row["sers"] = sers
